@@ -55,7 +55,7 @@ checks = {
    note="Cyclic edges excluded (C05). Hash definition taken from docs/ref/sync.md and the property text."),
  "C05": dict(
    category="model_checking", design_ref="DESIGN.md §3 C05",
-   technique="explicit-state search over graph states of the real store; in every state the complete menu of must-be-refused requests (self edge, root tombstone, missing node type, every cycle-closing edge through live or deleted edges, NaN at every batch position) is executed and followed by a full snapshot comparison and a spy on up.>; crashes/hangs are isolated by re-running the sequence 5x in separate processes",
+   technique="explicit-state search over graph states of the real store; in every state the complete menu of must-be-refused requests (self edge, root tombstone, missing node type, every cycle-closing edge through live or deleted edges, NaN at every batch position incl. NaN shadowed by a same-identity point, root tombstones of value 1, 3, 2, 0.5, -1, -2) is executed and followed by a full snapshot comparison and a spy on up.>; crashes/hangs are isolated by re-running the sequence 5x in separate processes",
    text="All graph states reachable by 2 (thorough 3) legal writes over the 9 directed edges among root,A,B,C (live or deleted) and node points; every refused request must answer with an error, leave the complete observable state (points, hashes) unchanged, publish nothing on up.>, and the instance must answer a follow-up write and read.",
    note="Reference graph decides refused/accepted (cycle = parent==child or child is an ancestor of parent through any edge)."),
  "C06": dict(
@@ -85,8 +85,8 @@ checks = {
    note="Narrow seam: no store; the rule receives up.<parent>.<node> messages as the store would rebroadcast them (C06). Raw-key filter semantics kept outside the alphabet. Compiled with go1.26.8 for testing/synctest."),
  "C07": dict(
    category="model_checking", design_ref="DESIGN.md §2.3, §3 C07",
-   technique="stateless model checking with a controlled scheduler: real store + real client.NewManager + instrumented client in one testing/synctest bubble per execution; every bus delivery waits for a grant of the scheduler (default oldest first), the explorer enumerates all operation histories and, deviation-bounded, alternative delivery orders and early driver operations",
-   text="All histories of 3 (thorough 4) operations over 13 with up to 1 (2) scheduling deviations; oracles: never two clients for one placement at any time, at quiescence (two rescan periods later) the running set equals the reference graph's set and the set a fresh manager starts on the same store, every client's folded configuration equals Decode of the store's node with children, Manager.Stop stops every client and returns.",
+   technique="stateless model checking with a controlled scheduler: real store + real client.NewManager + instrumented client in one testing/synctest bubble per execution; every bus delivery waits for a grant of the scheduler (default oldest first), the explorer enumerates all operation histories and, deviation-bounded, alternative delivery orders, early driver operations, the point at which Manager.Stop is issued (before every scheduler step) and which ready case the select statement of Manager.Run takes (client/manager.go rewritten by cmd/vselgen as a build overlay so that the explorer, not the Go runtime, picks among ready cases)",
+   text="Five parts: all histories of 3 (thorough 4) operations over 14 with up to 1 (2) scheduling deviations; child churn depth 3; group churn depth 4 (5) with clients that need 3 s to stop; Manager.Stop before every scheduler step after 2 (3) unquiesced operations; Stop combined with a second operation issued k steps into the activity of the first (2 deviations). Oracles: never two clients for one placement at any time, at quiescence (two rescan periods later) the running set equals the reference graph's set and the set a fresh manager starts on the same store, every client's folded configuration equals Decode of the store's node with children, Manager.Stop stops every client and returns.",
    note="Scheduling points are message deliveries and driver operations; goroutine interleavings between two grants are not enumerated; virtual time advances in 10 ms steps only when nothing is deliverable."),
  "C08": dict(
    category="model_checking", design_ref="DESIGN.md §3 C08",
@@ -96,8 +96,8 @@ checks = {
  "C02": dict(
    category="model_checking", design_ref="DESIGN.md §2.3, §3 C02",
    technique="stateless model checking with the controlled scheduler over TWO buses: two real stores (downstream, upstream) linked by the real client.SyncClient in one testing/synctest bubble per execution; exhaustive enumeration of operation histories (writes, creations, deletions, undeletions on either side, outages, periods) and, deviation-bounded, delivery orders; differential oracle downstream subtree = upstream subtree plus newest-accepted-write reference",
-   text="After an initial catch-up, all histories of 3 (thorough 4) operations over 15 are run, then the link is brought up and 5 sync periods pass; the device subtrees read through nodes.* (deleted included) must be identical in node set, types, every point (all fields but origin) and edge points, and hold the newest accepted write per identity.",
-   note="Outage = sync disabled/re-enabled (clean disconnect); abrupt link loss with in-flight messages and upstream restart are not modelled. Known findings: tombstones and writes to deleted nodes made during an outage (6 keys)."),
+   text="After an initial catch-up, all histories of 3 (thorough 4) operations over 24 (point / new identity / edge point / mirror-placement edge point / creation / deletion / undeletion on either side, sync disabled / enabled, link lost abruptly / restored, upstream restarted, upstream stopped with its clients reconnecting before its store answers / store back, a period passes) are run, then the link is brought up and 5 sync periods pass; the device subtrees read through nodes.* (deleted included) must be identical in node set, types, every point (all fields but origin) and edge points, and hold the newest accepted write per identity.",
+   note="Outages are modelled four ways: sync disabled/re-enabled (clean disconnect), abrupt loss of the sync client's upstream connection (queued deliveries lost, publishes buffered, handlers called in order), upstream restart, upstream bus reachable while its store is away. Known findings: tombstones and writes on or below deleted nodes made during an outage (4 keys)."),
  "C20": dict(
    category="model_checking", design_ref="DESIGN.md §2.3, §2.4, §3 C20",
    technique="stateless model checking with a preemption-bounded controlled scheduler on the real store: scheduling points are every bus delivery and, through an import-rewriting overlay of store/sqlite.go (database/sql -> gated wrapper, sync.Mutex -> gated channel mutex), every SQL operation and every writeLock.Lock; concurrent client threads (node writer, edge writer, reader, verify, maintenance, shutdown) are explored for all schedules with at most 2 (thorough 3) preemptions inside testing/synctest bubbles",
@@ -110,7 +110,7 @@ m = {
  "setup_cmd": "./run.sh setup",
  "hooks": {
    "guard": "verif",
-   "enable": "no source hooks in /repo: instrumentation is injected at build time with `go build/test -overlay` (virtual in-package test files; for C20 a copy of store/sqlite.go whose database/sql and sync imports are rewritten to gated wrappers, generated by gen_gated.py from the current tree) and a `replace` of github.com/nats-io/nats.go in the harness module; /repo is built as-is",
+   "enable": "no source hooks in /repo: instrumentation is injected at build time with `go build/test -overlay` (virtual in-package test files; for C20 a copy of store/sqlite.go whose database/sql and sync imports are rewritten to gated wrappers, generated by gen_gated.py from the current tree; for the tier-B binary a copy of client/manager.go whose select statement is rewritten by h/cmd/vselgen so that the explorer decides among ready cases) and a `replace` of github.com/nats-io/nats.go in the harness module; /repo is built as-is",
    "baseline_off_cmd": "cd /repo && GOFLAGS=-mod=mod go test -p 1 -vet=off -count=1 ./...",
    "source_commits": [],
    "add_only": True,
@@ -118,6 +118,7 @@ m = {
  "engines": [
    {"name": "mc", "path": "h/mc", "serves_properties": sorted(checks), "kind_free_text": "hand-written stateless explorer: exhaustive deviation-bounded DFS over choice sequences (with optional state-key pruning = explicit-state search), process sharding with crash/hang isolation, exhaustive plain enumerations, evidence/replay/known-findings handling"},
    {"name": "natsgo-shim", "path": "shim/natsgo", "serves_properties": ["C01","C02","C03","C04","C05","C06","C07","C08","C09","C13","C15","C20"], "kind_free_text": "deterministic in-process replacement of module github.com/nats-io/nats.go (replace directive in the harness module only): inline / async / controlled delivery"},
+   {"name": "vsel", "path": "h/vsel", "serves_properties": ["C07"], "kind_free_text": "select statements of client/manager.go under explorer control: go/ast source rewrite (h/cmd/vselgen, applied as build overlay) + runtime that inspects channel readiness without receiving and lets the explorer choose among ready cases"},
    {"name": "crash-enumerator", "path": "h/cmd/verifs/c04.go", "serves_properties": ["C04"], "kind_free_text": "strace fault injection: real SIGKILL at every state-changing system call of a real writer process, real recovery on the surviving files"},
  ],
  "checks": [],
